@@ -340,7 +340,8 @@ class ExprC10:
             return "av::VRec<%d, %s, %s>()" % (e[1], "true" if e[2] else "false", CXX_TY[e[3]])
         if k == "B":
             _, loc, bs, f = e
-            vals = ", ".join(lit(b) for b in bs)
+            # odd bound values are passed as named variables (lvalues) that are overwritten after the adaptor is built
+            vals = ", ".join(("av::lv(%s)" % lit(b)) if b[1] % 2 else lit(b) for b in bs)
             if loc == -1:
                 return "sigc::bind(%s, %s)" % (ExprC10.cxx(f), vals)
             return "sigc::bind<%d>(%s, %s)" % (loc, ExprC10.cxx(f), vals)
@@ -628,7 +629,7 @@ def c10_body(c, local_id):
     e = ExprC10.cxx(c["expr"])
     args = ", ".join(lit(a) for a in c["args"])
     sigt = "%s(%s)" % (CXX_TY[c["ret"]], ", ".join(CXX_TY[t] for t in c["sig"]))
-    b = ["  av::begin();", "  auto e = %s;" % e]
+    b = ["  av::begin();", "  auto e = %s;" % e, "  av::poison();"]
     if c["route"] == "D":
         b.append("  av::finish(%d, [&] { return e(%s); });" % (local_id, args))
     elif c["route"] == "S":
